@@ -12,6 +12,7 @@ from .. import terms as T
 from ..core import AnalysisError
 from ..model import FuncRef, NotConst
 from .oracle_tables import REQUIRED_KEYS_SOFT_OK, REQUIRED_IN_OPTIONAL_SECTION
+from .pinned_keys import PINNED_KEYS
 
 HOLE = ("bound", "□")
 
@@ -447,6 +448,13 @@ def _validator_rejects_default(model, cls, attr, default):
     return False
 
 
+def _written_conditionally(model, qname, key):
+    wf = model.own_method(qname, "serialize")
+    cx, emits = facts.writer_emits(model, wf)
+    mine = [e for e in emits if e.path and _const_key(e.path[-1]) == key]
+    return bool(mine) and all(facts.non_gate_guards(e.ev) for e in mine)
+
+
 def r_required(model, rep):
     """mandatory keys are read hard, or their default is rejected by the field validator; soft reads are allowed
     exactly for the documented-optional set"""
@@ -473,6 +481,12 @@ def r_required(model, rep):
                 if (qname, k) in REQUIRED_KEYS_SOFT_OK:
                     rep.ob("R-REQUIRED", "%s:%s" % (qname, k), True, site="%s:%s" % (cls.module.rel(), r.ev.lineno),
                            facts={"access": "soft", "documented_optional": True})
+                    continue
+                if (qname, k) not in PINNED_KEYS and _written_conditionally(model, qname, k):
+                    # a key added after the pinned tree that the writer itself omits under some condition is optional by
+                    # construction (R-SCHEMA checks that the reader's default matches what the omission means)
+                    rep.ob("R-REQUIRED", "%s:%s" % (qname, k), True, site="%s:%s" % (cls.module.rel(), r.ev.lineno),
+                           facts={"access": "soft", "new_optional_key": True})
                     continue
                 rejected = False
                 if s[1] == "soft" and s[2] is not None and s[2][0] == "const":
